@@ -51,7 +51,7 @@ func verifHarness_C06_LeakFreedomDynamicQueue() {
 		steps = 6
 	}
 	rt.Bound("steps", steps)
-	rt.MustCover("teardown:clean", "final:unavailable", "sync:new-task")
+	rt.MustCover("teardown:clean", "final:unavailable", "sync:new-task", "queue:removal-scheduled")
 	r := vsNewRig(1)
 	p := vsPlatform("os", "linux")
 	r.addClient("", r.addAction(1, p, false), 0, "inv-a")
@@ -65,7 +65,7 @@ func verifHarness_C06_LeakFreedomDynamicQueue() {
 		idleKinds:   []int{vsSyncIdle},
 		syncKinds:   []int{vsSyncCompletedOK, vsSyncIdle},
 		maxSyncs:    3,
-		advances:    []time.Duration{vsWorkerTimeout + time.Second, vsQueueTimeout + time.Second},
+		advances:    []time.Duration{vsWorkerTimeout + time.Second, vsQueueTimeout + time.Second, vsWorkerTimeout + vsQueueTimeout - time.Second},
 		maxAdvances: 2,
 	}
 	r.drive(o, steps)
@@ -132,6 +132,41 @@ func verifHarness_C06_TwoDynamicQueues() {
 		advances:    []time.Duration{vsWorkerTimeout / 2, vsWorkerTimeout + time.Second, vsQueueTimeout + time.Second},
 		maxAdvances: 3,
 	}
+	r.drive(o, steps)
+	r.teardown(o)
+}
+
+// Size-class retry while an operator waits for the small worker to finish:
+// every blocked call is woken by the stage change (the task goes back to QUEUED).
+func verifHarness_C06_WakeupsOnSizeClassRetry() {
+	rt.PreemptionBound(0)
+	steps := 3
+	if rt.Tier() > 0 {
+		steps = 5
+	}
+	rt.Bound("steps", steps)
+	rt.MustCover("learner:retry-on-largest", "act:terminate", "stream:fallback-to-queued")
+	r := vsNewRig(1)
+	p := vsPlatform("os", "linux")
+	rt.Assert(r.bq.RegisterPredeclaredPlatformQueue(digest.EmptyInstanceName, p, nil, 0, 0, []uint32{1, 4}) == nil, "queue registered")
+	c := r.addClient("", r.addAction(1, p, false), 0, "inv-a")
+	c.retryOnLargest = true
+	r.addWorker("", p, 1, "small")
+	r.addWorker("", p, 4, "large")
+	o := &vsOpts{
+		maxExecs:  1,
+		cancel:    true,
+		idleKinds: []int{vsSyncIdle},
+		syncKinds: []int{vsSyncCompletedOK, vsSyncCompletedFailed},
+		maxSyncs:  3,
+		terminate: true,
+	}
+	r.execute(c)
+	o.execs = []int{1}
+	rt.Quiesce()
+	r.sync(r.workers[0], vsSyncIdle)
+	rt.Quiesce()
+	r.walk()
 	r.drive(o, steps)
 	r.teardown(o)
 }
